@@ -24,7 +24,7 @@ static const char* DOCS[] = {
     R"([[1,2,[3,[4,[5]]]],{"a":{"b":{"c":{"d":[1,2,3]}}}},"text",12345678901234567890,-1.25e-3,true,null,{"":0,"k~/\"":1,"a/b":2,"m~n":3}])",
     R"([])", R"({})", R"(null)", R"("just a string")", R"([1,"a",null,[],{},1.5,true])",
 };
-static const std::vector<std::string> JSONPATH_SEEDS = {"$.store.book[*].author", "$..price", "$.store.book[?(@.price < 10)].title", "$..book[-1:]", "$.store.*", "$..book[?(@.isbn)]", "$.store.book[?(@.category == 'fiction' && @.price > 20)]", "$..*", "sum($..price)",
+static const std::vector<std::string> JSONPATH_SEEDS = {"$^", "$^^", "$.store^^^", "$.store.book[0]^^^^^", "$..book[?(@.price > 1)]^^^^", "$[*]^^.x", "$.store.book[*].author", "$..price", "$.store.book[?(@.price < 10)].title", "$..book[-1:]", "$.store.*", "$..book[?(@.isbn)]", "$.store.book[?(@.category == 'fiction' && @.price > 20)]", "$..*", "sum($..price)",
     "$.store.book[0,1]['author','title']", "$.people[?(@.age > 26)].name", "$.store.book[?(@.author =~ /Evelyn.*?/)]", "length($..book[*])", "$..book[?(@.price > $.expensive)].title", "$[0][2][1]", "$..d[1:]", "max($.store.book[*].price)", "keys($.m)",
     "$.people[*].tags[*]", "$.store.book[1:3:1]", "$.store.book[::-1]", "$..book[?(@.price*2 > 20 || !@.isbn)]^", "$['store']['book'][0]['title']", "$.store.book[?(tokenize(@.author,'\\\\s+')[1] == 'Waugh')]", "$[?(@ == 1)]", "$.store.book[(@.length-1)]", "abs(-1)", "avg($..price)", "ceil(1.5)", "contains($.s,'t')", "ends_with($.s,'xt')", "floor(2.5)", "min($..price)", "prod($..k2[*])", "starts_with($.s,'te')", "to_number('1.5')", "$.x.y.z", "$..['a','b']", "$[*]", "@", "$.`len`"};
 static const std::vector<std::string> JSONPATH_DICT = {"$", "@", ".", "..", "[", "]", "(", ")", "?", "*", "'", "\"", ",", ":", "-1", "0", "&&", "||", "!", "==", "!=", "<", "<=", ">", ">=", "=~", "/a.*/i", "^", "length(", "sum(", "keys(", "tokenize(", "\\", "::0", "-9223372036854775808", "9223372036854775807", "[?(", ")]", "['", "']", "[*]", "+", "-", "/", "%", "true", "null"};
